@@ -22,8 +22,9 @@ Op lines (a case starts with `reset`):
   res i=<idx> up=0|1          s<idx> leaves / rejoins the node's member record in the cluster directory
   reflect                     the directory now shows the node state published last (no effect on the
                               controller: resolving a hosted service does not depend on the node state shown)
-(reset also takes lst=<P|M...>: how the node's service list interleaves configured (P) and
-unconfigured (M) names for the real App.FilterSelfServices; it does not concern the model)
+(reset also takes lst=<P|F|W|G|T|A|M...>: the node's service list as the real App.FilterSelfServices reads it:
+configured names (P backend, F/W/G frontend, T other type, A backend with client address) interleaved with
+unconfigured ones (M); the model derives the hosted services from it: `hostedOf (parseEntries ws)`)
 Observation: `r=<class> pub=<states the provider accepted, in completion order> upd=<states as the node issued them> lost=<states the provider refused> stop=<n> sent=<s<i>:<cmd>,...> st=<state>`
 -/
 namespace Cell2v.Driver.C12
@@ -38,6 +39,34 @@ def parseKinds (ws : List String) : List Kind :=
   | none => []
   | some "" => []
   | some v => (v.splitOn ",").map parseKind
+
+/-- `lst=` letter of a configured name → its `services:` entry (harness `svcAttrs`) -/
+def cfgOfLetter : Char → Option SvcCfg
+  | 'P' => some {}
+  | 'F' => some { typ := 1, frontend := true, clientAddr := true }
+  | 'W' => some { typ := 1, frontend := true, wsAddr := true }
+  | 'G' => some { frontend := true }
+  | 'T' => some { typ := 1 }
+  | 'A' => some { clientAddr := true }
+  | _ => none
+
+/-- the node's `Services:` list: the letters of `lst=`, the configured ones paired with the kinds of `k=` in order -/
+def zipEntries : List Char → List Kind → Option (List Entry)
+  | [], [] => some []
+  | [], _ :: _ => none
+  | 'M' :: cs, ks => (zipEntries cs ks).map (Entry.unconfigured :: ·)
+  | c :: cs, k :: ks =>
+    match cfgOfLetter c, zipEntries cs ks with
+    | some cfg, some r => some (.hosted cfg k :: r)
+    | _, _ => none
+  | _ :: _, [] => none
+
+/-- without `lst=` (or with one that does not fit `k=`, as in the harness): every name is a plain backend -/
+def parseEntries (ws : List String) : List Entry :=
+  let kinds := parseKinds ws
+  match (kv ws "lst").bind (fun v => zipEntries v.toList kinds) with
+  | some es => es
+  | none => kinds.map (Entry.hosted {} ·)
 
 def parseMode (ws : List String) : StopMode :=
   match kv ws "stop" with
@@ -104,7 +133,8 @@ def step (d : DSt) (line : String) : DSt × String :=
   let ws := words line
   match ws.head? with
   | some "reset" =>
-    let kinds := parseKinds ws
+    -- what the controller hosts is computed by the model of FilterSelfServices + makeServices
+    let kinds := hostedOf (parseEntries ws)
     let b := boot true kinds (parseMode ws)
     let sc := parseScript ws
     ({ kinds := kinds, st := some b.1, held := kinds.map (· == Kind.raw),
